@@ -52,7 +52,19 @@ impl<F: Fam> std::fmt::Debug for Out<F> {
 }
 
 impl<F: Fam> Out<F> {
+    /// Short rendering for messages. A packet or error that holds text which is not UTF-8 (a defect some
+    /// checks look for) can make `Debug` panic or emit ill-formed text: both are absorbed here.
     pub fn short(&self) -> String {
+        match crate::ev::guard(|| self.short_raw()) {
+            Ok(s) => String::from_utf8_lossy(s.as_bytes()).into_owned(),
+            Err(_) => match self {
+                Out::Pkt(_) => "Pkt(<Debug formatting panics: the packet holds text that is not UTF-8>)".into(),
+                Out::Err(_) => "Err(<Debug formatting panics: the error holds text that is not UTF-8>)".into(),
+                _ => "<unprintable>".into(),
+            },
+        }
+    }
+    fn short_raw(&self) -> String {
         match self {
             Out::Pkt(p) => {
                 let s = format!("{:?}", p);
